@@ -50,7 +50,7 @@ fn leaf16(r: &mut Rng) -> Value {
 
 fn name16(r: &mut Rng, safe: bool) -> String {
     loop {
-        let mut s = if r.chance(2, 3) { gen_string(r, true) } else { special(r) };
+        let mut s = match r.below(9) { 0 => r.pick(&NOTABLE_NAMES).to_string(), 1..=5 => gen_string(r, true), _ => special(r) };
         if safe {
             s = s.replace(['.', '['], "_");
         }
@@ -158,6 +158,11 @@ pub fn gen_case(r: &mut Rng, tier: Tier) -> Case {
             v = if (d + r.below(2)) % 3 == 0 { json!([v]) } else { json!({"n": v, "s": d}) };
         }
         items.push(("deep_chain".into(), v));
+    }
+    // ... a value whose disclosure text runs to more than a megabyte (spaced text inside), once in a while
+    if !custom && r.chance(1, 45) {
+        let unit = format!("{} ", special(r));
+        items.push(("scan".into(), json!({"page": unit.repeat(1_150_000 / unit.len().max(1)), "n": 1})));
     }
     // ... and twin subtrees (the same names and values at two places), for queues that repeat a salt
     let repeats = r.chance(1, 7);
@@ -358,7 +363,9 @@ fn execute(ctx: &mut Ctx, case: &Case, reqs: &mut Vec<Value>) -> Exec {
     let a = issue(&case.args);
     ctx.impl_calls += 1;
     let req_a = reqs.len();
-    reqs.push(issue_request(req_a, &case.args, &a));
+    // (a megabyte-long disclosure takes the extracted model minutes: such a case is judged by the rules below alone)
+    let large = case.args.claims.get("scan").is_some();
+    reqs.push(if large { json!({"id": req_a, "op": "not-asked(large case)"}) } else { issue_request(req_a, &case.args, &a) });
     let mut ex = Exec { case: case.clone(), a, bc: None, hold: None, ver: None, req_a, req_b: None };
     let d = match ex.a.out.ok().and_then(|s| split(case.args.fmt, s)) {
         Some(p) => p.disclosures.len(),
@@ -371,7 +378,7 @@ fn execute(ctx: &mut Ctx, case: &Case, reqs: &mut Vec<Value>) -> Exec {
     let c = issue(&args_b);
     ctx.impl_calls += 2;
     let i = reqs.len();
-    reqs.push(issue_request(i, &args_b, &b));
+    reqs.push(if large { json!({"id": i, "op": "not-asked(large case)"}) } else { issue_request(i, &args_b, &b) });
     ex.req_b = Some(i);
     if let Some(s) = b.out.ok() {
         let sel = select_all(&case.args.claims).as_object().cloned().unwrap_or_default();
